@@ -167,6 +167,49 @@ def _ob_slice(mmax, cp_values=None):
     return ob
 
 
+def ob_di_readout(h):
+    """compute_direct_integration_targets with every callee replaced by its contract: what ends up on the direct-integration record
+    is read from the cascade tables AS COMPUTED (before anything rounds or extends them)."""
+    from types import SimpleNamespace
+    import OpenPinch.analysis.direct_integration_entry as di
+    from OpenPinch.classes.problem_table import ProblemTable
+    from OpenPinch.lib.enums import TargetType
+    from pvc.engine import ReplayMismatch
+    if not h.symbolic:
+        raise ReplayMismatch("modular obligation: callees are contracts, no native replay")
+    n = 3
+    Ts = [300.0, 150.0, 10.0]
+    cols = {}
+
+    def fake_cascade(**k):
+        tag = "s" if k.get("is_shifted") else "r"
+        cols[tag] = {c: h.reals(f"{nm}{tag}", n) for c, nm in ((PT.H_HOT.value, "Hh"), (PT.H_COLD.value, "Hc"), (PT.H_NET.value, "Hn"))}
+        cols["known_" + tag] = k.get("known_heat_recovery")
+        return ProblemTable({PT.T.value: list(Ts), **{c: list(v) for c, v in cols[tag].items()}})
+    recorded = {}
+    cfg = SimpleNamespace(DO_VERTICAL_GCC=False, DO_ASSITED_HT=False, DO_BALANCED_CC=h.choice("balanced_curves", [False, True]), DO_AREA_TARGETING=False)
+    zone = SimpleNamespace(name="Z", config=cfg, identifier="Site", hot_streams=StreamCollection(), cold_streams=StreamCollection(), all_streams=StreamCollection(),
+                           hot_utilities=StreamCollection(), cold_utilities=StreamCollection(), net_hot_streams=None, net_cold_streams=None,
+                           add_target_from_results=lambda tid, res: recorded.__setitem__(tid, res))
+    th, tc = h.real("hot_pinch"), h.real("cold_pinch")
+    h.stub(di, "get_process_heat_cascade", fake_cascade)
+    h.stub(ProblemTable, "pinch_temperatures", lambda self, *a, **k: (th, tc))
+    h.stub(di, "get_additional_GCCs", lambda pt, **k: pt)
+    h.stub(di, "get_utility_targets", lambda *a, **k: None)
+    h.stub(di, "get_balanced_CC", lambda *a, **k: {})
+    h.stub(di, "_create_net_hot_and_cold_stream_collections_for_site_analysis", lambda *a, **k: (StreamCollection(), StreamCollection()))
+    di.compute_direct_integration_targets(zone)
+    res = recorded[TargetType.DI.value]
+    tv = res["target_values"]
+    S, R = cols["s"], cols["r"]
+    h.check("real_table_built_for_the_shifted_heat_recovery", h.eq(cols["known_r"], S[PT.H_HOT.value][0] - S[PT.H_NET.value][n - 1]))
+    h.check("Qh_is_top_of_the_shifted_residual_as_computed", h.eq(tv["hot_utility_target"], S[PT.H_NET.value][0]))
+    h.check("Qc_is_bottom_of_the_shifted_residual_as_computed", h.eq(tv["cold_utility_target"], S[PT.H_NET.value][n - 1]))
+    h.check("Qr_is_hot_duty_minus_Qc_as_computed", h.eq(tv["heat_recovery_target"], S[PT.H_HOT.value][0] - S[PT.H_NET.value][n - 1]))
+    h.check("recovery_limit_from_the_real_table_as_computed", h.eq(tv["heat_recovery_limit"], R[PT.H_HOT.value][0] - R[PT.H_NET.value][n - 1]))
+    h.check("pinches_are_those_of_the_shifted_table", And(h.eq(res["hot_pinch"], th), h.eq(res["cold_pinch"], tc)))
+
+
 def obligations():
     fs = [Stream.__init__, Stream._update_attributes, pta.get_process_heat_cascade, pta.create_problem_table_with_t_int,
           pta._sum_mcp_between_temperature_boundaries, pta.problem_table_algorithm, pta.get_heat_recovery_target_from_pt, pta.set_zonal_targets]
@@ -184,4 +227,10 @@ def obligations():
                     bound="1..2 streams, every temperature / duty / contribution symbolic (non-linear arithmetic)",
                     doc="as C01.slice.b with symbolic heat-capacity flow rates")
     obs += split(nl, streams=[1]) + split(nl, streams=[2], s0_dir=D, s1_dir=D)
+    import OpenPinch.analysis.direct_integration_entry as di
+    obs.append(Obligation("C01.di.readout", ob_di_readout, kind="proof", functions=[di.compute_direct_integration_targets, di._save_graph_data],
+                          stubs=("get_process_heat_cascade (C01.slice / C05)", "pinch_temperatures (C06)", "get_additional_GCCs (C07)", "get_utility_targets (C03/C04)",
+                                 "get_balanced_CC (C15)", "_create_net_hot_and_cold_stream_collections_for_site_analysis"),
+                          expect=("Qh_is_top_of_the_shifted_residual_as_computed",),
+                          doc="READ-OUT: the record's targets are the cascade's end values as computed, not after display rounding (modular, path-complete)"))
     return obs
